@@ -129,6 +129,7 @@ class Extractor:
         self.reentries = {}       # same-object re-acquisitions (comment only)
         self.assumptions = {}     # text -> set(roles)
         self.blocking = {}        # text -> set(roles)
+        self.unguarded = {}       # (text, held) -> set(roles): queue operations that can wait for another thread
         self.visited_files = set()
         self.memo = set()
         self.active = set()
@@ -391,6 +392,30 @@ class Extractor:
             d['roles'].add(self.role)
             d['held'] |= {l for l, _ in ctx['held']}
 
+    @staticmethod
+    def full_guard(test):
+        """(receiver guarded in the body, receiver guarded in the else branch) for a test `not X.full()` / `X.full()`."""
+        def full_of(e):
+            if isinstance(e, ast.Call) and isinstance(e.func, ast.Attribute) and e.func.attr == 'full' and not e.args:
+                return ast.unparse(e.func.value)
+            return None
+        if isinstance(test, ast.UnaryOp) and isinstance(test.op, ast.Not):
+            return full_of(test.operand), None
+        return None, full_of(test)
+
+    def note_queue_wait(self, ctx, m, e):
+        """a Queue.put / Queue.get that can wait for another thread: not the nowait form, no block=False / timeout,
+        and (for put) not inside a `not full()` guard on the same queue."""
+        if any(k.arg in ('block', 'timeout') for k in e.keywords):
+            return
+        if (m == 'put' and len(e.args) >= 2) or (m == 'get' and len(e.args) >= 1):
+            return
+        recv = ast.unparse(e.func.value)
+        if m == 'put' and recv in ctx.get('guards', []):
+            return
+        held = ','.join(sorted({l for l, _ in ctx['held']})) or '-'
+        self.unguarded.setdefault((f"Queue.{m}() on `{recv}` [{self.loc(ctx, e)}]", held), set()).add(self.role)
+
     def note_blocking(self, ctx, what, node):
         held = ','.join(sorted({l for l, _ in ctx['held']})) or '-'
         self.blocking.setdefault(f"{what} [{self.loc(ctx, node)}] holding {{{held}}}", set()).add(self.role)
@@ -496,8 +521,20 @@ class Extractor:
             return
         if isinstance(st, ast.If):
             self.expr(st.test, ctx)
+            # `if not q.full(): q.put(x)` / `if q.full(): ... else: q.put(x)`: the put cannot block when every producer of
+            # the queue runs under the lock held here (the consumer only makes room)
+            g_body, g_else = self.full_guard(st.test)
+            guards = ctx.setdefault('guards', [])
+            if g_body:
+                guards.append(g_body)
             self.block(st.body, ctx)
+            if g_body:
+                guards.pop()
+            if g_else:
+                guards.append(g_else)
             self.block(st.orelse, ctx)
+            if g_else:
+                guards.pop()
             return
         if isinstance(st, ast.While):
             self.expr(st.test, ctx)
@@ -819,6 +856,8 @@ class Extractor:
                 for (tn, mm) in sorted(BLOCKING):
                     if mm == m and tn.split('.')[-1] in rt[1].replace('[', '.').split('.'):
                         self.note_blocking(ctx, f"{tn}.{m}()", e)
+                        if tn == 'Queue':
+                            self.note_queue_wait(ctx, m, e)
                 return T_ext(rt[1] + '.' + m)
             if rt is not None and rt[0] in ('list', 'dict', 'tuple'):
                 if rt[0] == 'dict':
@@ -963,6 +1002,7 @@ def extract(repo: Path):
         'assumptions': sorted((k + ' under a subset of {' + ','.join(sorted(v['held'])) + '}', sorted(v['roles']))
                               for k, v in ex.assumptions.items()),
         'blocking': sorted((k, sorted(v)) for k, v in ex.blocking.items()),
+        'unguarded': sorted((k[0], k[1], sorted(v)) for k, v in ex.unguarded.items()),
         'reentries': sorted((k[0], k[1], sorted(v)) for k, v in ex.reentries.items()),
         'files': sorted(ex.visited_files - {'<entry>'}),
         'sources': ex.sources,
@@ -1006,6 +1046,10 @@ def render(g):
     L.append("-- BLOCKING operations that are not locks:")
     for a, roles in g['blocking']:
         L.append(f"--   {a} ({', '.join(roles)})")
+    L.append("")
+    L.append("/-- queue operations that can WAIT for another thread (a blocking `Queue.put` outside a `not full()` guard on the")
+    L.append("same queue, a blocking `Queue.get`), with the locks held: (what and where, locks held). -/")
+    L.append("def queueWaits : List (String × String) := [" + ", ".join(f'("{w}", "{h}")' for w, h, _ in g['unguarded']) + "]")
     L.append("end Bobo.Gen.Locks")
     return "\n".join(L) + "\n"
 
